@@ -141,9 +141,23 @@ func c19Cases(level int) []SCase {
 				Schema: J{"type": "object", "properties": J{n: J{"type": "string"}, "k": J{"type": "string", "minLength": 1}}, "required": A{"k"}}})
 		}
 	}
+	// a definition called like the helper type the generated methods declare locally (Plain), as a struct, as a map and as a property-less
+	// object, next to an object whose catch-all block names that helper type; with and without the YAML methods
+	for _, n := range []string{"plain", "Plain"} {
+		for pi, pd := range []J{{"type": "object", "properties": J{"k": J{"type": "string", "minLength": 1}}, "required": A{"k"}},
+			{"type": "object", "additionalProperties": J{"type": "string"}}, {"type": "object"}} {
+			for _, extra := range []bool{false, true} {
+				cfg := baseCfg()
+				cfg.ExtraImports = extra
+				cases = append(cases, SCase{ID: fmt.Sprintf("C19/helper-type-name/%s/%d/extra=%v", n, pi, extra), Cfg: cfg, Axes: map[string]string{"pos": "helper-type-name", "leaf": n},
+					Schema: J{"type": "object", "properties": J{"name": J{"type": "string", "minLength": 2}, "p": J{"$ref": "#/$defs/" + n}}, "required": A{"name"},
+						"additionalProperties": J{"type": "string"}, "$defs": J{n: space.Clone(pd)}}})
+			}
+		}
+	}
 	out := cases[:0:0]
 	for i, c := range cases {
-		if i%2 == 1 {
+		if i%2 == 1 && !c.Cfg.ExtraImports {
 			c.Cfg.ExtraImports = true
 			c.ID += "+yaml"
 		}
